@@ -153,9 +153,12 @@ func (c Float32) Log1pExp(a ConstScalar) Scalar {
     c.Log1p(c)
   } else
   if v <= 33.3 {
-    c.Neg(a)
-    c.Exp(c)
-    c.Add(c, a)
+    // use a temporary so that the result is also correct if c and a
+    // are the same scalar
+    t := NewScalar(c.Type(), 0.0)
+    t.Neg(a)
+    t.Exp(t)
+    c.Add(a, t)
   } else {
     c.Set(a)
   }
